@@ -187,6 +187,16 @@ Theorem gpsum_laws :
   GPSum.sum_cov w cov_g = \sum_(g < G) (w g) ^+ 2 *: cov_g g /\
   GPSum.sum_mv_mean w mean_g = GPSum.sum_mean w mean_g /\ GPSum.sum_mv_var w var_g = GPSum.sum_var w var_g.
 Proof. by []. Qed.
+(* the gradient entry points: weighted sum of the components' mean gradients, squared-weight sum of their variance gradients,
+   and the joint entry point returns exactly what the four separate ones return *)
+Variable d : nat.
+Variables (gmean_g gvar_g : 'I_G -> 'M[F]_(m, d)).
+Theorem gpsum_grad_laws :
+  GPSum.sum_grad_mean w gmean_g = \sum_(g < G) w g *: gmean_g g /\
+  GPSum.sum_grad_var w gvar_g = \sum_(g < G) (w g) ^+ 2 *: gvar_g g /\
+  GPSum.sum_j_mean w mean_g = GPSum.sum_mean w mean_g /\ GPSum.sum_j_var w var_g = GPSum.sum_var w var_g /\
+  GPSum.sum_j_grad_mean w gmean_g = GPSum.sum_grad_mean w gmean_g /\ GPSum.sum_j_grad_var w gvar_g = GPSum.sum_grad_var w gvar_g.
+Proof. by []. Qed.
 End Sum.
 
 (* ------------------------------------------------------------------ log marginal likelihood value *)
